@@ -15,6 +15,9 @@ Inductive top : Type :=
 | OFlipRows
 | OFlipCols
 | OSort (variant : nat) (line : N) (sigma : list nat)
+(** the comparator / key function panicked at its k-th call ([fired], as observed: the number
+    of calls a sort makes is the standard library's business) or was not called that often *)
+| OSortFuse (variant : nat) (line : N) (k : N) (fired : bool) (sigma : list nat)
 | OSetCell (c r x : N)
 | OSetRowCell (c r x : N).
 
@@ -41,6 +44,7 @@ Definition p_top : parser top :=
   | 12 => p_ret OFlipRows
   | 13 => p_ret OFlipCols
   | 14 => v <~ p_nat ;; l <~ p_N ;; s <~ p_list p_nat ;; p_ret (OSort v l s)
+  | 17 => v <~ p_nat ;; l <~ p_N ;; k <~ p_N ;; f <~ p_bool ;; s <~ p_list p_nat ;; p_ret (OSortFuse v l k f s)
   | 15 => a <~ p_N ;; b <~ p_N ;; c <~ p_N ;; p_ret (OSetCell a b c)
   | 16 => a <~ p_N ;; b <~ p_N ;; c <~ p_N ;; p_ret (OSetRowCell a b c)
   | _ => p_fail
@@ -103,6 +107,13 @@ Definition run_top (dbg : bool) (k : rkind) (v : view) (b : buf) (o : top) : res
   | OFlipCols => only (op_flip_cols v b)
   | OSort var line sigma =>
       if sort_is_col var
+      then only (op_sort_by_col k v b line (sort_is_stable var) (sort_by_key var) sigma)
+      else only (op_sort_by_row v b line (sort_is_stable var) (sort_by_key var) sigma)
+  | OSortFuse var line _ fired sigma =>
+      (* the comparator runs inside the side sort of (index, key) pairs, before any cell is
+         moved: a panic there leaves the array as it was *)
+      if fired then Panic
+      else if sort_is_col var
       then only (op_sort_by_col k v b line (sort_is_stable var) (sort_by_key var) sigma)
       else only (op_sort_by_row v b line (sort_is_stable var) (sort_by_key var) sigma)
   | OSetCell c r x => i <- v_index_coord v c r ;; only (Ok (upd i x b))
